@@ -250,8 +250,12 @@ func (fr *Frame) evalOld(v ssa.Value) Value {
 	}
 	s.heap = merged
 	s.log = curLog[:s.oldSnap.logLen]
+	savedFull := s.fullLog
+	if s.fullLog == nil {
+		s.fullLog = curLog
+	}
 	s.inOld++
-	defer func() { s.heap, s.log = cur, curLog; s.inOld-- }()
+	defer func() { s.heap, s.log = cur, curLog; s.inOld--; s.fullLog = savedFull }()
 	return ev(v)
 }
 
